@@ -108,6 +108,15 @@ pub fn api_crosscheck() -> Result<(usize, usize), String> {
     Ok((found.len(), API_TABLE.len()))
 }
 
+thread_local! {
+    /// history stage: run only the k-th call of the table (None = every call)
+    static ONLY_CALL: std::cell::Cell<Option<u64>> = const { std::cell::Cell::new(None) };
+    /// history stage, first pass: indexes of the calls that were refused (Err / None)
+    static REFUSED_CALLS: std::cell::RefCell<Option<Vec<(u64, &'static str)>>> = const { std::cell::RefCell::new(None) };
+    /// text of the last call executed under ONLY_CALL
+    static LAST_CALL: std::cell::RefCell<String> = const { std::cell::RefCell::new(String::new()) };
+}
+
 struct Ctx<'a> {
     b: &'a Built,
     rec: &'a Recorder,
@@ -128,8 +137,25 @@ impl<'a> Ctx<'a> {
     /// runs one call; `absent` = an absent name was passed to a function with an error channel
     fn call(&mut self, name: &'static str, args: String, absent: bool, f: impl FnOnce() -> Out) {
         self.calls += 1;
+        if let Some(k) = ONLY_CALL.with(|c| c.get()) {
+            if k != self.calls {
+                return;
+            }
+            LAST_CALL.with(|l| *l.borrow_mut() = format!("{name}({args})"));
+            // the leading call of a history: its own outcome was judged when the graph was checked alone
+            let _ = guarded(f);
+            return;
+        }
         match guarded(f) {
             Ok(out) => {
+                if out == Out::Refused {
+                    let k = self.calls;
+                    REFUSED_CALLS.with(|r| {
+                        if let Some(v) = r.borrow_mut().as_mut() {
+                            v.push((k, name));
+                        }
+                    });
+                }
                 if absent && out == Out::Value {
                     self.viol("absent_name", name, &args, "returned a value for a name that is not in the graph (expected Err / None)".into(), None, vec![]);
                 }
@@ -466,6 +492,97 @@ fn check_graph_free(rec: &Recorder) -> u64 {
     calls
 }
 
+/// Two-call histories across graphs on one thread: one call on graph A (every refused call and every
+/// 5th other call of the table), then the whole table on a smaller graph B. Whatever the first call leaves
+/// behind on the thread (scratch buffers, memo, pool state) must not make a valid call on B panic.
+fn history_graphs() -> (Vec<Built>, Vec<Built>) {
+    let nan = f64::NAN;
+    let a = vec![
+        build_custom(DS, 2, &[(0, 1, -1.0)], "hA0: a->b weight -1"),
+        build_custom(DS, 3, &[(0, 1, 1.0), (1, 2, -2.0), (0, 2, 1.0)], "hA1: negative edge behind a positive one"),
+        build_custom(US, 3, &[(0, 1, 2.0), (1, 2, -1.0)], "hA2: undirected path with a negative edge"),
+        build_custom(US, 5, &[(0, 1, 1.0), (1, 2, 1.0), (2, 3, 1.0), (3, 4, 1.0), (0, 4, 5.0)], "hA3: weighted 5-cycle"),
+        build_custom(DS, 4, &[(0, 1, nan), (1, 2, nan), (2, 0, nan), (2, 3, nan)], "hA4: directed triangle with a tail"),
+        build_custom(Kind { directed: false, multi: true, loops: true }, 3, &[(0, 1, 1.0), (0, 1, 2.0), (2, 2, 1.0)], "hA5: multigraph with a loop"),
+    ];
+    let b = vec![
+        build_custom(US, 0, &[], "hB0: empty"),
+        build_custom(DS, 1, &[], "hB1: single node"),
+        build_custom(US, 2, &[(0, 1, 1.0)], "hB2: one weighted edge"),
+        build_custom(DS, 2, &[(1, 0, nan)], "hB3: one directed edge"),
+    ];
+    (a, b)
+}
+
+fn run_history(ai: usize, k: u64, bi: usize, rec: &Recorder) -> u64 {
+    let (a, b) = history_graphs();
+    let mut c = Counters::default();
+    let dummy = Recorder::new("C20", &[]);
+    ONLY_CALL.with(|o| o.set(Some(k)));
+    check_api(&a[ai], &dummy, &mut c);
+    ONLY_CALL.with(|o| o.set(None));
+    let first = LAST_CALL.with(|l| l.borrow().clone());
+    // B's own report, re-labelled with the history that led to it
+    let inner = Recorder::new("C20", &[]);
+    let calls = check_api(&b[bi], &inner, &mut c);
+    for mut v in inner.take_all() {
+        v.case = format!("h:{ai}:{k}:{bi}|{}", v.case);
+        v.detail = format!("two-call history on one thread: first {first} on graph [{}], then on graph [{}]:\n{}", a[ai].case, b[bi].case, v.detail);
+        v.tags.push("after_other_call_on_thread".into());
+        rec.record(v);
+    }
+    calls + 1
+}
+
+fn history_stage(tier: &str, rec: &Recorder, seed: u64) -> (u64, u64) {
+    let (a, b) = history_graphs();
+    let tot = std::sync::Mutex::new((0u64, 0u64));
+    let (step, per_fn) = if tier == "quick" { (23, 6) } else { (3, 200) };
+    // first pass: which calls on A are refused
+    let plans: Vec<Vec<u64>> = (0..a.len())
+        .map(|ai| {
+            on_fresh_thread_scoped(seed, || {
+                REFUSED_CALLS.with(|r| *r.borrow_mut() = Some(vec![]));
+                let dummy = Recorder::new("C20", &[]);
+                let mut c = Counters::default();
+                let total = check_api(&a[ai], &dummy, &mut c);
+                let refused = REFUSED_CALLS.with(|r| r.borrow_mut().take()).unwrap_or_default();
+                // per function: the first `per_fn` refused calls (argument tuples are enumerated simplest first)
+                let mut seen: std::collections::HashMap<&'static str, usize> = std::collections::HashMap::new();
+                let mut ks: Vec<u64> = refused
+                    .into_iter()
+                    .filter(|(_, name)| {
+                        let e = seen.entry(name).or_insert(0);
+                        *e += 1;
+                        *e <= per_fn
+                    })
+                    .map(|x| x.0)
+                    .collect();
+                ks.extend((1..=total).step_by(step));
+                ks.sort();
+                ks.dedup();
+                ks
+            })
+            .unwrap_or_default()
+        })
+        .collect();
+    let jobs: Vec<(usize, usize)> = (0..a.len()).flat_map(|ai| (0..b.len()).map(move |bi| (ai, bi))).collect();
+    par_for(jobs.len(), |j| {
+        let (ai, bi) = jobs[j];
+        // quick: refused calls only for the larger half of the plan
+        for &k in &plans[ai] {
+            let r = on_fresh_thread_scoped(seed, || run_history(ai, k, bi, rec));
+            if let Ok(n) = r {
+                let mut t = tot.lock().unwrap();
+                t.0 += 1;
+                t.1 += n;
+            }
+        }
+    });
+    let t = tot.lock().unwrap();
+    (t.0, t.1)
+}
+
 /// named degenerate shapes beyond n = 3
 fn shapes() -> Vec<(&'static str, usize, Vec<(usize, usize)>)> {
     vec![
@@ -575,6 +692,9 @@ pub fn run(tier: &str, rec: &Recorder) -> RunOutput {
         shape_calls += t.0;
         shape_graphs += t.1;
     }
+    let (hist, hist_calls) = history_stage(tier, rec, seed);
+    shape_calls += hist_calls;
+    out.set("two_call_histories_across_graphs", hist);
     fill_e2_coverage(&mut out, &stats);
     out.add("states", shape_graphs);
     out.add("transitions", shape_calls + free_calls);
@@ -605,6 +725,16 @@ pub fn replay(case: &str, rec: &Recorder) -> bool {
                 let mut c = Counters::default();
                 check_api(&b, rec, &mut c);
             });
+        }
+        return rec.has_any();
+    }
+    if main.starts_with("h:") {
+        let p: Vec<u64> = main.split(':').skip(1).filter_map(|x| x.parse().ok()).collect();
+        if p.len() != 3 {
+            return false;
+        }
+        for _ in 0..2 {
+            let _ = on_fresh_thread_scoped(seed, || run_history(p[0] as usize, p[1], p[2] as usize, rec));
         }
         return rec.has_any();
     }
